@@ -80,7 +80,7 @@ def task(t):
     base = checklib.fresh_dir("env_")
     prods = []
     for i, (level, images) in enumerate([("1.5", (("HH", None, 4, 3), ("HV", None, 3, 2))), ("1.1", (("HH", "F1", 3, 2), ("HH", "F2", 4, 1)))]):
-        b = product.build_product(level=level, images=images, seed=t["seed"] + i, drift=bool(i))
+        b = product.build_product(level=level, images=images, seed=t["seed"] + i, drift=i)
         prods.append(b.write(os.path.join(base, f"prod{i}", "product")))
     out = {"task": t, "bad": []}
     ref, err = _child([], [{"dir": d, "form": "str"} for d in prods], base, "ref")
